@@ -239,7 +239,8 @@ class Campaign:
     # ----------------------------------------------------------------- finish
     def finish(self):
         wall = time.time() - self.t0
-        out_dir = os.path.join(env.VERIF_ROOT, "out", "replays", self.pid)
+        # (runs against a patched copy of the repository - mutants - keep their replay files apart from those of /repo itself)
+        out_dir = os.path.join(env.VERIF_ROOT, "out", "replays" if os.path.realpath(env.REPO) == "/repo" else "mutant-replays", self.pid)
         violations = []
         for bucket, b in sorted(self.buckets.items()):
             f = self.match_known(bucket)
